@@ -68,8 +68,14 @@ def initialS : BaseKind → STy
 def boundOf (conv : Bytes → Option Int) (kwd : String) (b : Bytes) : Option (Option Int) :=
   if b = msg kwd then some none else (conv b).map some
 
-def partsOf (conv : Bytes → Option Int) (ps : List (Bytes × Bytes)) : Option (List (Option Int × Option Int)) :=
+/-- the parts of a restriction over the base `set`: `min` / `max` stand for the smallest / largest value of the base in
+    either position; a part that is one boundary only (written twice here) is that single value -/
+def partsOf (conv : Bytes → Option Int) (set : List (Int × Int)) (ps : List (Bytes × Bytes)) :
+    Option (List (Option Int × Option Int)) :=
   ps.mapM fun (lo, hi) =>
+    if lo = msg "max" && hi = msg "max" then (set.getLast?.map fun b => (some b.2, none))
+    else if lo = msg "min" && hi = msg "min" then (set.head?.map fun b => (none, some b.1))
+    else
     match boundOf conv "min" lo, boundOf conv "max" hi with
     | some l, some h => some (l, h)
     | _, _ => none
@@ -78,14 +84,14 @@ def applyLevelS (t : STy) (lv : Level) : Option STy :=
   match lv.restr with
   | none => some t
   | some ps =>
-    if !(ps.all fun (lo, hi) => (lo = msg "min" || YC.numBoundaryOK lo) && (hi = msg "max" || YC.numBoundaryOK hi)) then none else
+    if !(ps.all fun p => singleKeyword p || ((p.1 = msg "min" || YC.numBoundaryOK p.1) && (p.2 = msg "max" || YC.numBoundaryOK p.2))) then none else
     match t with
-    | .int w set => if lv.isLength then none else (partsOf boundaryInt ps).bind fun p => (validRestriction set p).map (.int w)
+    | .int w set => if lv.isLength then none else (partsOf boundaryInt set ps).bind fun p => (validRestriction set p).map (.int w)
     | .uint w set => if lv.isLength then none else
-        (partsOf (fun b => (boundaryInt b).bind fun v => if v < 0 then none else some v) ps).bind fun p => (validRestriction set p).map (.uint w)
-    | .dec fd set => if lv.isLength then none else (partsOf (scaled fd) ps).bind fun p => (validRestriction set p).map (.dec fd)
+        (partsOf (fun b => (boundaryInt b).bind fun v => if v < 0 then none else some v) set ps).bind fun p => (validRestriction set p).map (.uint w)
+    | .dec fd set => if lv.isLength then none else (partsOf (scaled fd) set ps).bind fun p => (validRestriction set p).map (.dec fd)
     | .str lens => if !lv.isLength then none else
-        (partsOf (fun b => (boundaryInt b).bind fun v => if v < 0 then none else some v) ps).bind fun p => (validRestriction lens p).map .str
+        (partsOf (fun b => (boundaryInt b).bind fun v => if v < 0 then none else some v) lens ps).bind fun p => (validRestriction lens p).map .str
     | _ => none
 
 /-- the chain: every level a valid restriction of the one below; the default in force at every level is a
